@@ -32,7 +32,8 @@ RULE = ('unit: float matrices (integer counts, all-zero rows, single column, '
         'pipeline: generated problems (<=12 cells, <=15 genes, depth<=3, '
         'integer counts with positive row sums; also stored as '
         'uint8/uint16/int16/int32/uint32 dense/csr/csc with per-cell totals '
-        'beyond the dtype range) x relations declared / scale '
+        'beyond the dtype range; also queries of 300-600 columns with the '
+        'markers beyond column 255) x relations declared / scale '
         '/ gene-permutation (raw and log2CPM) / extra-genes / negative (3 '
         'encodings x 4 dtypes). non-trivial = tree with >=2 leaves and a '
         'non-identity variant (pipeline), a positive-sum row with >=2 '
@@ -997,6 +998,32 @@ def gen_pipeline_cases(ctx, rng, i):
     out.append(case('extra-genes', base_log,
                     q(np.stack(cols, axis=1), gx, 'log2CPM', enc2), c3,
                     nontrivial=bool(drop) or n_add > 0))
+    # d'. WIDE queries: the reference has <= 255 genes, the query 300-600
+    # columns, with the markers beyond column 255 (query column positions
+    # need a wider integer type than reference positions)
+    n_w = rng.randint(300, 600)
+    wnames = ['wq%d' % e for e in range(n_w)]
+    #   extra genes PREPENDED to the normalised query
+    Wl = nprng.random((n, n_w)) * 16.0
+    Wl[nprng.random((n, n_w)) < 0.5] = 0.0
+    out.append(case('extra-genes', base_log,
+                    q(np.concatenate([Wl, L], axis=1), wnames + list(genes),
+                      'log2CPM', enc2), c3))
+    #   gene permutation of a wide raw query: markers first in the base,
+    #   anywhere (mostly beyond column 255) in the variant
+    Wr = nprng.integers(0, 40, (n, n_w)).astype(float)
+    Xw = np.concatenate([X, Wr], axis=1)
+    gw = list(genes) + wnames
+    permw = list(range(g + n_w))
+    rng.shuffle(permw)
+    if rng.random() < 0.5:
+        # all original genes pushed behind the extra ones
+        permw = list(range(g, g + n_w)) + list(range(g))
+    encw = ENCODINGS[(i + 2) % 3]
+    c4 = cfg(round(rng.uniform(0.3, 0.95), 2))
+    out.append(case('gene-permutation', q(Xw, gw, 'raw', encw),
+                    q(Xw[:, permw], [gw[j] for j in permw], 'raw', encw),
+                    c4))
     # e. negative
     a, b_ = rng.randrange(n), rng.randrange(g)
     if rng.random() < 0.5:
